@@ -384,6 +384,51 @@ def rule_r6(F, rep):
                       % (extra, sorted(allowed)), fn.loc)
 
 
+FDATA = "rsjsonnet_lang::program::data::ObjectFieldData"
+CELL_COPIERS = ("rsjsonnet_lang::program::data::extend_object_clone_field",)
+
+
+def rule_r7(F, rep):
+    R = rep.rule("C11.R7", "a field's memo cell is never carried from one object to another: when an object is derived from "
+                 "another (extension, key removal, patching) every field of the copy starts with a cell of its own — a fresh one, "
+                 "or a thunk created for the copy — except in extend_object_clone_field, whose sharing condition C07.R2 decides; a "
+                 "shared cell makes the copy answer with whatever an earlier request computed for the original's `self`")
+    n = 0
+    for fn in F.fn_list:
+        if fn.body is None or "rsjsonnet_lang" not in fn.q:
+            continue
+        body = fn.body
+        P = None
+        for bi, blk in enumerate(body.blocks):
+            if blk["cleanup"]:
+                continue
+            for st in blk["s"]:
+                if st["k"] != "assign":
+                    continue
+                rv = st["rv"]
+                hit = None
+                if rv["k"] == "agg" and rv.get("adt") == FDATA and "thunk" in rv.get("fn", []):
+                    hit = rv["xs"][rv["fn"].index("thunk")]
+                elif prov.field_write(F, body, st["p"], FDATA) == "thunk":
+                    hit = rv.get("x") if rv["k"] == "use" else None
+                    if hit is None:
+                        hit = {"k": "rv", "rv": rv}
+                if hit is None:
+                    continue
+                P = P or prov.Prov(F, body)
+                o = P.origins_rv(hit["rv"]) if hit.get("k") == "rv" else (P.origins_op(hit) if hit.get("k") != "const" else set())
+                shared = any(x and x[0] == "field" and x[1] == FDATA and x[2] == "thunk" for x in o)
+                n += 1
+                ok = (not shared) or fn.q in CELL_COPIERS
+                rep.ob(R, "%s|bb%d" % (fn.q, bi), ok, {"fn": fn.q, "origins": sorted(map(str, o))[:4]} if shared else None)
+                if not ok:
+                    rep.violation(R, "%s|memo-cell-shared" % fn.q,
+                                  "%s stores another field's memo cell (ObjectFieldData.thunk) into a new field: values already "
+                                  "computed for the original object are reused by the copy, so a request on the copy depends on "
+                                  "which requests touched the original before" % fn.q, fn.loc)
+    rep.floor(R, n, 6, "writes of ObjectFieldData.thunk")
+
+
 def run(F, rep, tier):
     rule_r1(F, rep)
     rule_r2(F, rep)
@@ -392,6 +437,7 @@ def run(F, rep, tier):
     objflags.rule(F, rep, "C11.R4")
     rule_r5(F, rep)
     rule_r6(F, rep)
+    rule_r7(F, rep)
     rep.assume("order-independence of values in general and collections between requests (C03) are not decided; "
                "the interner and arena are append-only and their order is unobservable (C05.R4)")
     return EXPLANATION
